@@ -8,7 +8,7 @@ use margined_common::asset::AssetInfo;
 use crate::{
     contract::OWNER,
     messages::execute_vamm_shutdown,
-    querier::{query_engine_decimals, query_vamm_decimals},
+    querier::{query_engine_decimals, query_vamm_decimals, query_vamm_open},
     state::{read_config, read_vammlist, remove_vamm as remove_amm, save_vamm, Config, VAMM_LIMIT},
 };
 
@@ -76,8 +76,17 @@ pub fn shutdown_all_vamm(deps: DepsMut, env: Env, info: MessageInfo) -> StdResul
     // construct all the shutdown messages
     let keys = read_vammlist(deps.as_ref(), VAMM_LIMIT)?;
 
+    // a vAMM that is already closed rejects SetOpen { open: false }, which would revert the
+    // whole shutdown and leave the others open: only the vAMMs that are still open are closed
     for vamm in keys.iter() {
-        msgs.push(execute_vamm_shutdown(vamm.clone())?);
+        if query_vamm_open(&deps.as_ref(), vamm.to_string())? {
+            msgs.push(execute_vamm_shutdown(vamm.clone())?);
+        }
+    }
+
+    // nothing left to close: same answer as a vAMM gives to a repeated close
+    if msgs.is_empty() {
+        return Err(StdError::generic_err("unauthorized"));
     }
 
     Ok(Response::default().add_submessages(msgs))
